@@ -9,3 +9,8 @@ claim('C19', 'proof',
       "scipy.stats.<family>.<method>, numpy samplers, gammaln and log are uninterpreted reference functions (scipy is the reference); scipy's closed form of nbinom.logpmf; real arithmetic. The four *nbinom placeholders with an empty body are treated as not provided.",
       "contract-based deductive verification (straight-line data-flow VCs per wrapper, z3), native replay against scipy",
       "DESIGN.md 4/C19")
+claim('C14', 'proof',
+      "For the five loss classes, built through their real constructors, loss is proved equal to the sum of the reference negative log-density per element (extensionality of the sum at a fresh index), and diff_loss / diff2Loss are proved equal to the mechanically differentiated reference kernel, for vector, single-column and matrix inputs of any size; every result is proved to have the shape of y; with weights, Square/Normal losses use them and diff_loss is w times the unweighted derivative.",
+      "scipy.stats.poisson.logpmf is the reference (uninterpreted); closed forms of gamma.logpdf and nbinom.logpmf as documented by scipy; Log/Gammaln uninterpreted with instantiated log laws for positive arguments; real arithmetic; numpy broadcasting/reshape as modelled in pyvc/lib.py.",
+      "contract-based deductive verification (symbolic execution of the real constructors and methods, element-level VCs, z3 nlsat on purified identities), native replay",
+      "DESIGN.md 4/C14")
